@@ -9,8 +9,13 @@
 """
 import json, os, subprocess, sys, shutil, time
 
-def sh(cmd, cwd=None, timeout=3600):
-    p = subprocess.run(cmd, shell=True, cwd=cwd, capture_output=True, text=True, timeout=timeout)
+ENV = dict(os.environ, CARGO_TARGET_DIR_EVAL="/tmp/seed_eval_target")
+
+def sh(cmd, cwd=None, timeout=3600, cargo_target=None):
+    env = dict(os.environ)
+    if cargo_target:
+        env["CARGO_TARGET_DIR"] = cargo_target
+    p = subprocess.run(cmd, shell=True, cwd=cwd, capture_output=True, text=True, timeout=timeout, env=env)
     return p.returncode, p.stdout + p.stderr
 
 def merge(seed, d):
@@ -31,17 +36,18 @@ def confirm(seed):
         if rc != 0:
             res["apply_output"] = out[-600:]
             return res
-        rc, out = sh("cargo test --offline 2>&1 | grep -E '^test result|error(\\[|:)' | head -5", cwd=wt)
+        T = "/tmp/seed_eval_target"
+        rc, out = sh("cargo test --offline 2>&1 | grep -E '^test result|error(\\[|:)' | head -5", cwd=wt, cargo_target=T)
         res["suite_with_patch"] = out.strip().splitlines()[0] if out.strip() else "no output"
         res["suite_passes"] = "67 passed; 0 failed" in out
         shutil.copy(os.path.join(seed, "demo.rs"), os.path.join(wt, "tests", "seed_demo.rs"))
-        rc1, out1 = sh("cargo test --offline --test seed_demo 2>&1 | tail -15", cwd=wt)
+        rc1, out1 = sh("cargo test --offline --test seed_demo 2>&1 | tail -15", cwd=wt, cargo_target=T)
         res["demo_with_patch_fails"] = ("test result: FAILED" in out1) or ("panicked" in out1 and "test result: ok" not in out1)
         res["demo_with_patch_tail"] = out1[-500:]
         os.remove(os.path.join(wt, "tests", "seed_demo.rs"))
         sh("git checkout -- . && git clean -fdq tests", cwd=wt)
         shutil.copy(os.path.join(seed, "demo.rs"), os.path.join(wt, "tests", "seed_demo.rs"))
-        rc2, out2 = sh("cargo test --offline --test seed_demo 2>&1 | tail -8", cwd=wt)
+        rc2, out2 = sh("cargo test --offline --test seed_demo 2>&1 | tail -8", cwd=wt, cargo_target=T)
         res["demo_without_patch_passes"] = "test result: ok" in out2 and "FAILED" not in out2
         if not res["demo_without_patch_passes"]:
             res["demo_without_patch_tail"] = out2[-500:]
